@@ -6,6 +6,7 @@ import (
 	"errors"
 	"fmt"
 	"io"
+	"strings"
 	"sync"
 	"testing"
 	"time"
@@ -16,6 +17,7 @@ import (
 	"verif/harness/fakenet"
 	"verif/harness/hx"
 	"verif/harness/peer"
+	"verif/harness/quiesce"
 	"verif/harness/tx"
 )
 
@@ -174,7 +176,15 @@ func runCase(c Case, ctx *hx.Ctx) *hx.Failure {
 	if err != nil {
 		return hx.Failf("C08/harness", "%v", err)
 	}
-	defer eng.Close()
+	defer func() {
+		// Close may itself block when the transport is wedged; that verdict is reported by the caller check below
+		done := make(chan struct{})
+		go func() { eng.Close(); close(done) }()
+		select {
+		case <-done:
+		case <-time.After(10 * time.Second):
+		}
+	}()
 
 	type call struct {
 		name string
@@ -209,7 +219,16 @@ func runCase(c Case, ctx *hx.Ctx) *hx.Failure {
 				cl.resp, cl.err = eng.Exchange(cx, peer.Query(cl.id, cl.name, 16))
 			}()
 		}
-		wg.Wait()
+		returned := make(chan struct{})
+		go func() { wg.Wait(); close(returned) }()
+		select {
+		case <-returned:
+		case <-time.After(32 * time.Second):
+			// every caller's context ended 12 s ago: "its context ended" is one of the listed reasons to report failure,
+			// so a caller still inside the transport neither succeeded nor reported anything
+			stuck := quiesce.With("ExchangeContext")
+			return hx.Failf("C08/exchange-never-returns", "engine=%s datagram=%v: a burst of %d queries has callers still inside ExchangeContext 12 s after their contexts ended; blocked in the transport:\n%s", c.Engine, c.Datagram, n, excerpt(stuck))
+		}
 		mu.Lock()
 		df := dialFails
 		mu.Unlock()
@@ -297,6 +316,22 @@ func runCase(c Case, ctx *hx.Ctx) *hx.Failure {
 	ctx.Classf("max-attempts=%d", maxAttempts)
 	ctx.Sample(c)
 	return nil
+}
+
+// excerpt returns up to two of the goroutine stacks, shortened.
+func excerpt(gs []quiesce.G) string {
+	var out []string
+	for _, g := range gs {
+		lines := strings.Split(g.Stack, "\n")
+		if len(lines) > 9 {
+			lines = lines[:9]
+		}
+		out = append(out, strings.Join(lines, "\n"))
+		if len(out) == 2 {
+			break
+		}
+	}
+	return strings.Join(out, "\n--\n")
 }
 
 func connsOf(s []peer.Seen) []int {
